@@ -34,6 +34,24 @@ def run(facts, R):
     for v in facts.adt("constants::BodyFormat")["variants"]:
         if v["name"] == "Beve":
             beve_code = v["discr"]
+    # ---------------- format-gate-argument: a helper that gates on a `body_format` parameter is handed the request's body
+    # format - not its query format, whose JSON-pointer code happens to equal the BEVE body code
+    n_gate = 0
+    for hb in facts.bodies.values():
+        if hb.kind not in ("fn", "method") or not hb.path.startswith(("server::", "message::", "server_request::")):
+            continue
+        ks = [a for a in range(1, hb.argc + 1) if hb.debug_name(a) == "body_format" and hb.local_ty(a) == "u16"]
+        for k in ks:
+            for cb, ci, ct in facts.calls_to(hb.path):
+                if k - 1 >= len(ct["args"]):
+                    continue
+                n_gate += 1
+                a = Sym(cb).op(ct["args"][k - 1])
+                ok = (a[0] == "field" and a[2] == "body_format") or (a[0] == "arg" and cb.debug_name(a[1]) == "body_format")
+                R.check(ok, "format-gate-argument", cb.path, "%s is given the body format" % hb.path.rsplit("::", 1)[-1],
+                        "the body-format gate of %s is handed %s: a body labelled with another format would be decoded as a typed array"
+                        % (hb.path.rsplit("::", 1)[-1], render_n(a)), ct.get("span"), render_n(a))
+    R.floor("format-gate-argument", n_gate, 2, "calls of helpers gating on a body_format parameter")
     # ---------------- size-writer-pairs -------------------------------------------------------------------
     for kind, sizefn, writefn, builder, streamer in PAIRS:
         b = facts.body(builder)
